@@ -16,7 +16,7 @@ Idx(c) == CHOOSE i \in 1..Len(ClassSeq) : ClassSeq[i] = c
 
 (* heads: the empty head is the plain "all strings up to N" enumeration; the others put the    *)
 (* enumeration behind a context that the bound could not reach otherwise (second statement,    *)
-(* open bracket, open / closable fence, fence inside brackets)                                 *)
+(* open bracket, open / closable fence, fence inside brackets, indented statement)             *)
 HeadEmpty  == {<<>>}
 HeadStmt   == {<<"L", "=", "1", "n">>}                               \* A=1\n
 HeadParen  == {<<"L", "=", "(", "n">>, <<"(", "L", "=", "n">>}       \* A=(\n   (A=\n
@@ -24,7 +24,8 @@ HeadFence  == {<<"`", "`", "`", "n">>,                               \* ```\n
                <<"`", "`", "`", "n", "L", "=", "1", "n">>,           \* ```\nA=1\n
                <<"L", "=", "1", "n", "`", "`", "`", "n", "L", "n">>} \* A=1\n```\nA\n
 HeadNested == {<<"(", "n", "`", "`", "`", "n", "`", "`", "`">>}     \* (\n```\n```
-HeadAll    == HeadStmt \cup HeadParen \cup HeadFence \cup HeadNested
+HeadIndent == {<<" ", "L", "=">>}                                    \* (space)A=
+HeadAll    == HeadStmt \cup HeadParen \cup HeadFence \cup HeadNested \cup HeadIndent
 
 (* tails of the context slices: the classes the splitter distinguishes *)
 SplitAlpha == {"L", "1", " ", "n", "=", "(", ")", "`", "#", "{", "+", "x"}
@@ -38,7 +39,6 @@ MCAdmitEnd(p, q) == Len(q) < Len(p) + 2 => Shard = 0
 RECURSIVE Join(_, _)
 Join(q, i) == IF i > Len(q) THEN "" ELSE q[i] \o Join(q, i + 1)
 
-B2N(b) == IF b THEN 1 ELSE 0
 Extents   == [k \in 1..Len(s.stmts) |-> <<s.stmts[k][1], s.stmts[k][2]>>]
 (* per statement: 1 = inserted verbatim (fenced block or `...`), 0 = must yield one equation *)
 VerbFlags == [k \in 1..Len(s.stmts) |-> s.stmts[k][3]]
